@@ -169,7 +169,7 @@ theorem simplify_good {es : List (Addr × Coins)} (h : ∀ e ∈ es, EntriesNonn
 
 theorem Inv.of_bank {s : State} (hi : Inv s) (k : Ledger) (hc : HoldsCovered { s with bank := k }) :
     Inv { s with bank := k } :=
-  ⟨hi.holdsMatch, hc, ⟨hi.wf.orders, hi.wf.ids, hi.wf.idsNodup, hi.wf.commits, hi.wf.pays, hi.wf.keys⟩⟩
+  ⟨hi.holdsMatch, hc, ⟨hi.wf.orders, hi.wf.ids, hi.wf.idsNodup, hi.wf.commits, hi.wf.ckeys, hi.wf.pays, hi.wf.keys⟩⟩
 
 theorem debitAll_inv {s s' : State} {es : List (Addr × Coins)} (hi : Inv s) (hg : EntriesGood es)
     (h : debitAll s es = some s') : Inv s' := by
@@ -270,7 +270,7 @@ theorem settleCommitments_inv {s s' : State} {admin : Addr} {m : Nat} {ins outs 
 /-! ### market close -/
 
 theorem Inv.of_markets {s : State} (hi : Inv s) (ms : List Market) : Inv { s with markets := ms } :=
-  ⟨hi.holdsMatch, hi.covered, ⟨hi.wf.orders, hi.wf.ids, hi.wf.idsNodup, hi.wf.commits, hi.wf.pays, hi.wf.keys⟩⟩
+  ⟨hi.holdsMatch, hi.covered, ⟨hi.wf.orders, hi.wf.ids, hi.wf.idsNodup, hi.wf.commits, hi.wf.ckeys, hi.wf.pays, hi.wf.keys⟩⟩
 
 /-- under the invariant `CancelOrder` cannot hit the "release failed" branch, so the call without
 rollback behaves like the transactional one -/
